@@ -96,7 +96,13 @@ where
             if buffered_req.is_some() && server.is_some() {
                 let si = &mut server.as_mut().as_pin_mut().unwrap().0;
                 match ready!(si.poll_ready_unpin(cx)) {
-                    Ok(()) => si.start_send_unpin(buffered_req.take().unwrap()).unwrap(),
+                    Ok(()) => {
+                        // The sink refuses a request that exceeds the frame size limit once
+                        // the routing tag has been added: drop that request, keep the replier
+                        if let Err(e) = si.start_send_unpin(buffered_req.take().unwrap()) {
+                            error!("Failed to send request to replier: {e:?}");
+                        }
+                    }
                     // The replier's connection has failed: unbind it so that another replier
                     // can bind. The request stays buffered for the next replier.
                     Err(e) => {
@@ -245,13 +251,19 @@ where
 
             match stream.as_mut().poll_next(cx) {
                 // Received message from a client stream
-                Poll::Ready(Some((id, Ok(item)))) => {
-                    let mut payload = item.unwrap_message();
+                Poll::Ready(Some((id, Ok(Frame::Message(mut payload))))) => {
                     payload
                         .headers
                         .get_or_insert(HashMap::new())
                         .insert("cid".into(), format!("{id}"));
                     *buffered_req = Some(Frame::Message(payload));
+                }
+                // Requestors may only send messages; anything else is ignored
+                Poll::Ready(Some((_, Ok(frame)))) => {
+                    error!(
+                        "Received unexpected frame type from requestor: {}",
+                        frame.get_type()
+                    )
                 }
                 // Encountered an error whilst receiving a message from an inner stream
                 Poll::Ready(Some((_, Err(e)))) => {
